@@ -607,6 +607,8 @@ fn well_formed(f: &Frame) -> bool {
 					if c.len != c.hdr + lens(&refs) { return false; }
 					if !c.attrs.iter().all(|a| leaf(L_CODE, false, a)) { return false; }
 					if c.attrs.iter().filter(|a| a.k == "smt" || a.k == "smap").count() > 1 { return false; }
+					// old-format StackMap with several entries: outside the model (frames handed out depend on label numbering)
+					if c.attrs.iter().any(|a| a.k == "smap" && a.pay.first().copied().unwrap_or(0) > 1) { return false; }
 				}
 			}
 		}
